@@ -31,7 +31,9 @@ PART = {
                 "dkgstore.savefinished.after hook until the transition time has passed) after which ChainInfo of the refusing members, their group/share files (hashes) and the ChainInfo of a daemon "
                 "restarted on such a folder must be what they were; plus 'evicted': a same-set reshare in which one member (any but the one with the largest key, by seed) is stopped right after the execute packet and is evicted "
                 "by the DKG, the resulting group (hole in its DKG indices, threshold = its size) must carry the chain on; partials of new-group members refused by new-group members past the transition are "
-                "violations; quick 6 cases with scheme/variant from the case seed, thorough 5 schemes x (6 x 2 repetitions + 2). An evaluation = one round first stored anywhere (verified under the ORIGINAL public key at every node's base store, cross-node agreement, per-node "
+                "violations; and 'rejoin': a member is removed by a first reshare (a new node joins), the chain crosses that transition, a second reshare invites it back as a joiner and the chain must cross "
+                "the second transition with it: the re-joined node must answer ChainInfo/PublicRand/Status (a wedge is reported only with the parked join-path frame in the goroutine dump), follow the chain, "
+                "and run one handler (handler.tick count per round, chain stores created); quick 7 cases with scheme/variant from the case seed, thorough 5 schemes x (7 x 2 repetitions + 2; the second rejoin on memdb). An evaluation = one round first stored anywhere (verified under the ORIGINAL public key at every node's base store, cross-node agreement, per-node "
                 "gap-freedom), one ChainInfo answer compared field by field with the pre-reshare answer, or one bounded-progress checkpoint; non-trivial = rounds within +-3 of the "
                 "transition round, identity comparisons and progress checkpoints; distinct by (scenario, variant, offset to the transition | checkpoint).",
         "assumptions": [
